@@ -153,6 +153,38 @@ pub fn generate(seed: u64, thorough: bool, sink: &mut Sink) -> Vec<String> {
     }
   }
   push("compound", comp, sink);
+  // statement sequences: three to seven statements over a few variables that are read several times, combined with
+  // each other and later assigned or op-assigned (the compiler keeps one register per value: re-use is where a wrong
+  // register shows), over scalars or row vectors of one shape, the last statement a variable or an expression
+  let mut seqs: Vec<String> = vec![];
+  for _ in 0..(if thorough { 3000 } else { 300 }) {
+    let vector = rng.chance(1, 3);
+    let lit = |rng: &mut Rng| -> String { if vector { format!("[{} {} {}]", rng.range(1, 9), rng.range(1, 9), rng.range(1, 9)) } else { format!("{}", rng.range(1, 9)) } };
+    let names = ["a", "b", "c", "d", "e"];
+    let mut defined: Vec<(&str, bool)> = vec![];
+    let mut lines: Vec<String> = vec![];
+    let n = 3 + rng.below(5) as usize;
+    for _ in 0..n {
+      let ops = ["+", "-", "*", "+", "-"];
+      let operand = |rng: &mut Rng, defined: &Vec<(&str, bool)>| -> String { if !defined.is_empty() && rng.chance(3, 4) { rng.pick(defined).0.to_string() } else { lit(rng) } };
+      let expr = |rng: &mut Rng, defined: &Vec<(&str, bool)>| -> String {
+        match rng.below(4) { 0 => operand(rng, defined), _ => format!("{} {} {}", operand(rng, defined), rng.pick(&ops), operand(rng, defined)) } };
+      let muts: Vec<&str> = defined.iter().filter(|d| d.1).map(|d| d.0).collect();
+      let fresh: Vec<&str> = names.iter().copied().filter(|x| !defined.iter().any(|d| d.0 == *x)).collect();
+      match rng.below(6) {
+        0 | 1 if !fresh.is_empty() => { let m = rng.chance(2, 3); let nm = fresh[0]; lines.push(format!("{}{} := {}", if m { "~" } else { "" }, nm, expr(&mut rng, &defined))); defined.push((nm, m)); }
+        2 | 3 if !muts.is_empty() => { let t = *rng.pick(&muts); lines.push(format!("{} {}= {}", t, rng.pick(&["+", "-", "*"]), operand(&mut rng, &defined))); }
+        // (whole-variable `=` compiles to an unregistered function at the pinned commit: finding C06-D6, its own samples)
+        4 | 5 if !defined.is_empty() => { lines.push(format!("{} {} {}", operand(&mut rng, &defined), rng.pick(&ops), operand(&mut rng, &defined))); }
+        _ => { if !fresh.is_empty() { let nm = fresh[0]; lines.push(format!("~{} := {}", nm, lit(&mut rng))); defined.push((nm, true)); } }
+      }
+    }
+    // the last statement is an operation (a program that ends in a bare operand is finding C06-D8, class last-statement-bare)
+    seqs.push(lines.join("\n"));
+  }
+  for s in ["~a := 1\nb := 2\nc := a + b\na += b", "~x := 5\n1 + x\nx += 2", "~a := [1 2 3]\nb := [4 5 6]\nc := a + b\nd := a * b\na += b", "~a := 2\nb := a * a\nc := b - a\na *= c\nd := a + b"] { seqs.push(s.to_string()); }
+  push("statement-sequences", seqs, sink);
+  push("last-statement-bare", ["~a := 1\nb := a + a\n5", "~a := 1\nb := a + a\na", "~a := 9\n~b := a + a\n[1 2 3]", "a := 3 + 8\n~b := 3\nb -= b\na", "~a := [6 2 5]\nb := a + a\na"].iter().map(|s| s.to_string()).collect(), sink);
   out
 }
 
